@@ -5,3 +5,11 @@ int memcmp(const void* a, const void* b, size_t n) { const unsigned char* x = (c
 int bcmp(const void* a, const void* b, size_t n) { return memcmp(a, b, n); }
 int strcmp(const char* a, const char* b) { for (;; ++a, ++b) { unsigned char x = *a, y = *b; if (x != y) return x < y ? -1 : 1; if (!x) return 0; } }
 void* memchr(const void* s, int c, size_t n) { const unsigned char* p = (const unsigned char*)s; for (size_t i = 0; i < n; ++i) if (p[i] == (unsigned char)c) return (void*)(p + i); return 0; }
+/* <ctype.h> for the "C" locale */
+int isspace(int c) { return c == ' ' || (c >= '\t' && c <= '\r'); }
+int isdigit(int c) { return c >= '0' && c <= '9'; }
+int isalpha(int c) { return (c >= 'a' && c <= 'z') || (c >= 'A' && c <= 'Z'); }
+int isalnum(int c) { return isdigit(c) || isalpha(c); }
+int toupper(int c) { return (c >= 'a' && c <= 'z') ? c - 32 : c; }
+int tolower(int c) { return (c >= 'A' && c <= 'Z') ? c + 32 : c; }
+void* memmove(void* d, const void* s, size_t n);
